@@ -256,5 +256,5 @@ BOUNDED['C08'] = BOUNDED['C08'] + [{'name': 'number-separators', 'script': 'numb
     'bound': 'number(from, grouping separator, decimal separator) for 30 texts x every pair of separators from {" ", ",", ".", null, "$", "", ";", 1}, positional and named form (3 840 evaluations) against DMN 1.3 Table 72: '
              'grouping separator a space / comma / period / null, decimal separator a period / comma / null, the two different, the text without grouping separators and with the decimal separator read as a period a numeric literal - else null'}]
 
-BOUNDED['C08'] = BOUNDED['C08'] + [{'name': 'regular-expression-flags', 'driver': 'feelcases', 'args': ['/verif/replay/cases/C08_regex_flags.txt', 'all'], 'functions': ['core::matches', 'core::replace (flags i, m, s, x, q)', 'named::bif_matches / bif_replace'],
-    'bound': '29 calls of matches / replace, positional and named: each of the flags i (case), m (line boundaries inside the input), s (the dot matches a line break), x (blanks in the pattern), q (the pattern literally) with an input on which it makes the difference, with and without the flag, and two flags combined in both orders'}]
+BOUNDED['C08'] = BOUNDED['C08'] + [{'name': 'regular-expression-flags', 'driver': 'feelcases', 'args': ['/verif/replay/cases/C08_regex_flags.txt', 'all'], 'functions': ['core::matches', 'core::replace (flags i, m, s, x, q)', 'core::split (the delimiter is a pattern)', 'named::bif_matches / bif_replace / bif_max / bif_min'],
+    'bound': '29 calls of matches / replace, positional and named: each of the flags i (case), m (line boundaries inside the input), s (the dot matches a line break), x (blanks in the pattern), q (the pattern literally) with an input on which it makes the difference, with and without the flag, and two flags combined in both orders; 9 further calls: split with a delimiter that is ONE pattern character (`.`, `(`, `|`, an escaped `+`), named and positional max / min over a list holding one list (38 cases)'}]
